@@ -123,7 +123,7 @@ def mk_eq(l, r, typ):
     if l[0] == "t" and r[0] != "t":
         l, r = r, l
     if l[0] == "t":
-        l = ["f", "strip", [], [l]] if typ == "S" else ["f", "int", [], [l]]
+        l = ["f", "lower", [], [l]] if typ == "S" else ["f", "int", [], [l]]
     return ["==", l, r]
 
 
@@ -207,7 +207,10 @@ def expr_s(draw, env, depth):
         return ["f", "concat", [], [expr_s(draw, env, depth - 1), expr_s(draw, env, depth - 1)]]
     if fn == "substring":
         return ["f", "substring", [], [expr_s(draw, env, depth - 1), ["t", draw(st.integers(0, 4))]]]
-    return ["f", fn, [], [expr_s(draw, env, depth - 1)]]
+    a = expr_s(draw, env, depth - 1)
+    if fn == "strip" and a[0] == "t":
+        fn = "lower"  # strip() does not take a term
+    return ["f", fn, [], [a]]
 
 
 def expr_b(draw, env, depth, pure=True):
@@ -292,7 +295,15 @@ def expr_b(draw, env, depth, pure=True):
 
 def value_expr(draw, env, depth):
     """-> (expr, type)"""
-    t = draw(st.sampled_from(["N", "N", "S", "S", "B", "sparse"]))
+    t = draw(st.sampled_from(["N", "N", "S", "S", "B", "sparse"] + (["stack", "stack"] if env.stacks else [])))
+    if t == "stack":
+        nm = draw(st.sampled_from(sorted(env.stacks)))
+        fn = draw(st.sampled_from(["pop", "peek", "peek_size", "size"]))
+        if fn == "peek":
+            return ["f", "peek", [], [["t", nm], ["t", draw(st.integers(0, 3))]]], "A"
+        if fn == "pop":
+            return ["f", "pop", [], [["t", nm]]], "A"
+        return ["f", fn, [], [["t", nm]]], "I"
     if t == "N":
         e = expr_n(draw, env, depth)
         return e, "N"
